@@ -189,6 +189,7 @@ type VC struct {
 	inl           []*ssa.Function // helpers being executed in place (inline.go)
 	inlR          string
 	inlMem        *Mem
+	inlSite       *ssa.BasicBlock // block of the outermost call being executed in place
 }
 
 type debugBinding struct {
@@ -737,6 +738,9 @@ func (vc *VC) oblige(kind, guard, goal string, pos token.Pos, desc string) *Obli
 
 func (vc *VC) enclosingLoops(b *ssa.BasicBlock) []*loopInfo {
 	var out []*loopInfo
+	if b != nil && b.Parent() != vc.fn && vc.inlSite != nil {
+		b = vc.inlSite // a block of a helper executed in place counts as its call site's block
+	}
 	for _, l := range vc.loopList {
 		if l.body[b] {
 			out = append(out, l)
